@@ -12,7 +12,7 @@ from fractions import Fraction
 import vlib
 
 PROPERTY = "C04"
-LEAN_MODULES = ["TapkeeVerif.Props.C04"]
+LEAN_MODULES = ["TapkeeVerif.Props.C04", "TapkeeVerif.Props.C04Compose"]
 LEAN_EXES = ["model_c04"]
 REQUIRED_THEOREMS = [
     "TapkeeVerif.Dijkstra.dijkstra_exact",
@@ -44,6 +44,9 @@ REQUIRED_THEOREMS = [
     "TapkeeVerif.IsomapPre.asymD_is_geodesic_matrix",
     "TapkeeVerif.IsomapPre.isomapPre_symm",
     "TapkeeVerif.IsomapPre.isomap_is_cmds_unrepaired_refuted",
+    # Props/C04Compose.lean: the stage models (C02 search, C03 k doubling, C04 Dijkstra + isomapPre, C05 post) composed
+    "TapkeeVerif.IsomapCompose.isomap_end_to_end",
+    "TapkeeVerif.IsomapCompose.isomap_end_to_end_brute",
 ]
 BUILDS = ["pq", "fib"]
 THREADS = [1, 2, 3, 8, 16]
